@@ -630,3 +630,117 @@ func utf8FoldStep(s int, b byte) int { return specUTF8Step(s, b) }
 //@   loop 1 invariant [same] u.state == old(u.state) && u.Source == old(u.Source)
 //@   loop 1 assigns nothing
 //@   loop 1 decreases n - i
+
+// ---------------------------------------------------------------------------
+// Message reader (C01, C04, C05, C07, C13, C16).
+
+//@ func io.ReadFull
+//@   requires [stream] streamOK(r)
+//@   ensures  [ok]    inEnd(r)-old(inPos(r)) >= len(buf) ==> err == nil && n == len(buf) && inPos(r) == old(inPos(r))+len(buf)
+//@   ensures  [data]  forall(0, n, func(k int) bool { return buf[k] == inByte(r, old(inPos(r))+k) })
+//@   ensures  [short] inEnd(r)-old(inPos(r)) < len(buf) ==> err != nil && inPos(r) == inEnd(r) && n == inEnd(r)-old(inPos(r))
+//@   ensures  [eof]   err == io.EOF ==> n == 0
+//@   ensures  [n]     0 <= n && n <= len(buf)
+//@   ensures  [pos]   inPos(r) == old(inPos(r))+n
+//@   assigns bytes(buf), stream(r)
+
+//@ func Reader.readHeader
+//@   props C01 C04 C05 C15 C16
+//@   requires [stream] streamOK(in) && in != nil
+//@   ensures  [cut2]   inEnd(in)-old(inPos(in)) < 2 ==> err != nil
+//@   ensures  [cut]    inEnd(in)-old(inPos(in)) >= 2 && inEnd(in)-old(inPos(in)) < ws.VSpecNeed(inByte(in, old(inPos(in))+1)) ==> err != nil
+//@   ensures  [msb]    inEnd(in)-old(inPos(in)) >= ws.VSpecNeed(inByte(in, old(inPos(in))+1)) && ws.VSpecMSB(in, old(inPos(in))) ==> err == ws.ErrHeaderLengthMSB
+//@   ensures  [ok]     inEnd(in)-old(inPos(in)) >= ws.VSpecNeed(inByte(in, old(inPos(in))+1)) && !ws.VSpecMSB(in, old(inPos(in))) ==> err == nil && h == ws.VSpecDecode(in, old(inPos(in))) && inPos(in) == old(inPos(in))+ws.VSpecNeed(inByte(in, old(inPos(in))+1))
+//@   ensures  [nomore] inPos(in) <= old(inPos(in))+ws.VSpecNeed(inByte(in, old(inPos(in))+1)) && inPos(in) >= old(inPos(in))
+//@   ensures  [stream] streamOK(in)
+//@   assigns r.tmp, stream(in)
+
+// invReader is the representation invariant of Reader.
+func invReader(r *Reader) bool {
+	frameOK := r.frame == nil || r.frame == io.Reader(&r.raw) || (r.cr != nil && r.frame == io.Reader(r.cr)) || r.frame == io.Reader(&r.utf8)
+	crOK := r.cr == nil || r.frame != io.Reader(r.cr) || r.cr.r == io.Reader(&r.raw)
+	utfOK := r.frame != io.Reader(&r.utf8) || r.utf8.Source == io.Reader(&r.raw) || (r.cr != nil && r.utf8.Source == io.Reader(r.cr) && r.cr.r == io.Reader(&r.raw))
+	return frameOK && crOK && utfOK && r.raw.N >= 0 && (r.frame == nil || r.raw.R == r.Source) && validUTF8State(r.utf8.state) && r.Source != nil
+}
+
+// idleReader: no message is open (what a new Reader looks like, apart from its configuration).
+func idleReader(r *Reader) bool {
+	return r.frame == nil && r.raw.R == nil && r.raw.N == 0 && r.utf8.Source == nil && r.utf8.state == 0 && r.utf8.codep == 0 && r.utf8.accepted == 0 && r.opCode == 0
+}
+
+//@ func NewReader
+//@   props C04 C18
+//@   ensures [new] result != nil && result.Source == r && result.State == s && !result.SkipHeaderCheck && !result.CheckUTF8 && len(result.Extensions) == 0 && result.MaxFrameSize == 0 && result.cr == nil
+//@   ensures [idle] idleReader(result)
+//@   assigns nothing
+
+//@ func Reader.fragmented
+//@   props C04 C05
+//@   ensures [v] result == (r.State&ws.StateFragmented != 0)
+//@   assigns nothing
+
+//@ func Reader.reset
+//@   props C04 C07 C18
+//@   ensures [idle] idleReader(r)
+//@   ensures [same] r.Source == old(r.Source) && r.State == old(r.State) && r.cr == old(r.cr) && r.CheckUTF8 == old(r.CheckUTF8) && r.SkipHeaderCheck == old(r.SkipHeaderCheck) && r.MaxFrameSize == old(r.MaxFrameSize)
+//@   assigns r.raw, r.frame, r.utf8, r.opCode
+
+//@ func Reader.resetFragment
+//@   props C04 C07
+//@   ensures [frag] r.frame == nil && r.raw.R == nil && r.raw.N == 0 && r.utf8.Source == nil
+//@   ensures [keep] r.utf8.state == old(r.utf8.state) && r.utf8.codep == old(r.utf8.codep) && r.opCode == old(r.opCode) && r.State == old(r.State) && r.Source == old(r.Source) && r.cr == old(r.cr)
+//@   assigns r.raw, r.frame, r.utf8.Source
+
+//@ iface wsutil.RecvExtension.UnsetBits(h ws.Header) (rh ws.Header, err error)
+//@   ensures [only-rsv] rh.Fin == h.Fin && rh.OpCode == h.OpCode && rh.Masked == h.Masked && rh.Mask == h.Mask && rh.Length == h.Length
+//@   assigns nothing
+
+// io.Copy from a *io.LimitedReader over an abstract stream into a writer without side effects on the
+// library's memory (ioutil.Discard): the limited reader is drained or the stream ends.
+//@ func io.Copy
+//@   requires [src] dynTypeIs(src, "*io.LimitedReader") && src.(*io.LimitedReader).R != nil && streamOK(src.(*io.LimitedReader).R) && src.(*io.LimitedReader).N >= 0
+//@   ensures  [n]   0 <= src.(*io.LimitedReader).N && src.(*io.LimitedReader).N <= old(src.(*io.LimitedReader).N)
+//@   ensures  [pos] inPos(src.(*io.LimitedReader).R) == old(inPos(src.(*io.LimitedReader).R))+int(old(src.(*io.LimitedReader).N)-src.(*io.LimitedReader).N)
+//@   ensures  [ok]  err == nil ==> src.(*io.LimitedReader).N == 0 || (inPos(src.(*io.LimitedReader).R) == inEnd(src.(*io.LimitedReader).R) && inErr(src.(*io.LimitedReader).R) == io.EOF)
+//@   ensures  [err] err != nil ==> err == inErr(src.(*io.LimitedReader).R) && inPos(src.(*io.LimitedReader).R) == inEnd(src.(*io.LimitedReader).R) && err != io.EOF
+//@   ensures  [stream] streamOK(src.(*io.LimitedReader).R) && src.(*io.LimitedReader).R == old(src.(*io.LimitedReader).R)
+//@   assigns src.(*io.LimitedReader).N, stream(src.(*io.LimitedReader).R)
+
+func hdrComplete(r io.Reader, p0 int) bool {
+	return inEnd(r)-p0 >= 2 && inEnd(r)-p0 >= ws.VSpecNeed(inByte(r, p0+1)) && !ws.VSpecMSB(r, p0)
+}
+
+func hdrAccepted(r *Reader, s io.Reader, p0 int, st ws.State) bool {
+	h := ws.VSpecDecode(s, p0)
+	return hdrComplete(s, p0) && (r.SkipHeaderCheck || ws.VSpecHeaderOK(h, st)) && !(r.MaxFrameSize > 0 && h.Length > r.MaxFrameSize)
+}
+
+func specUTF8Wanted(r *Reader, h ws.Header, st ws.State, op ws.OpCode) bool {
+	return r.CheckUTF8 && (h.OpCode == ws.OpText || (st&ws.StateFragmented != 0 && op == ws.OpText))
+}
+
+//@ func Reader.NextFrame
+//@   props C04 C05 C07 C13 C15 C16
+//@   call Reader.fragmented inline
+//@   requires [inv]   invReader(r) && streamOK(r.Source) && r.raw.N == 0 && len(r.Extensions) == 0 && r.OnContinuation == nil && r.OnIntermediate == nil
+//@   ensures  [cut]   !(inEnd(r.Source)-old(inPos(r.Source)) >= 2 && inEnd(r.Source)-old(inPos(r.Source)) >= ws.VSpecNeed(inByte(r.Source, old(inPos(r.Source))+1))) ==> err != nil
+//@   ensures  [cutfrag] err == io.EOF ==> old(r.State)&ws.StateFragmented == 0
+//@   ensures  [reject] hdrComplete(r.Source, old(inPos(r.Source))) && !r.SkipHeaderCheck && !ws.VSpecHeaderOK(ws.VSpecDecode(r.Source, old(inPos(r.Source))), old(r.State)) ==> err != nil
+//@   ensures  [limit] hdrComplete(r.Source, old(inPos(r.Source))) && (r.SkipHeaderCheck || ws.VSpecHeaderOK(ws.VSpecDecode(r.Source, old(inPos(r.Source))), old(r.State))) && r.MaxFrameSize > 0 && ws.VSpecDecode(r.Source, old(inPos(r.Source))).Length > r.MaxFrameSize ==> err == ErrFrameTooLarge && inPos(r.Source) == old(inPos(r.Source))+ws.VSpecNeed(inByte(r.Source, old(inPos(r.Source))+1))
+//@   ensures  [failsame] !hdrAccepted(r, r.Source, old(inPos(r.Source)), old(r.State)) ==> err != nil && r.frame == old(r.frame) && r.raw.N == old(r.raw.N) && r.raw.R == old(r.raw.R) && r.State == old(r.State) && r.opCode == old(r.opCode) && r.utf8.state == old(r.utf8.state) && r.utf8.Source == old(r.utf8.Source)
+//@   ensures  [hdr]   hdrAccepted(r, r.Source, old(inPos(r.Source)), old(r.State)) ==> hdr == ws.VSpecDecode(r.Source, old(inPos(r.Source)))
+//@   ensures  [data]  hdrAccepted(r, r.Source, old(inPos(r.Source)), old(r.State)) && !(old(r.State)&ws.StateFragmented != 0 && hdr.OpCode >= 8) ==> err == nil && r.raw.R == r.Source && r.raw.N == hdr.Length && inPos(r.Source) == old(inPos(r.Source))+ws.VSpecNeed(inByte(r.Source, old(inPos(r.Source))+1)) && (r.State&ws.StateFragmented != 0) == !hdr.Fin && r.State&^ws.StateFragmented == old(r.State)&^ws.StateFragmented
+//@   ensures  [opcode] hdrAccepted(r, r.Source, old(inPos(r.Source)), old(r.State)) && !(old(r.State)&ws.StateFragmented != 0 && hdr.OpCode >= 8) ==> r.opCode == ws.OpCode(iteInt(old(r.State)&ws.StateFragmented != 0, int(old(r.opCode)), int(hdr.OpCode)))
+//@   ensures  [chain] hdrAccepted(r, r.Source, old(inPos(r.Source)), old(r.State)) && !(old(r.State)&ws.StateFragmented != 0 && hdr.OpCode >= 8) ==> (hdr.Masked ==> r.cr != nil && r.cr.r == io.Reader(&r.raw) && r.cr.mask == hdr.Mask && r.cr.pos == 0) && (specUTF8Wanted(r, hdr, old(r.State), r.opCode) ==> r.frame == io.Reader(&r.utf8) && r.utf8.state == old(r.utf8.state) && r.utf8.Source == iteReader(hdr.Masked, io.Reader(r.cr), io.Reader(&r.raw))) && (!specUTF8Wanted(r, hdr, old(r.State), r.opCode) ==> r.frame == iteReader(hdr.Masked, io.Reader(r.cr), io.Reader(&r.raw)) && r.utf8.state == old(r.utf8.state))
+//@   ensures  [ctl]   hdrAccepted(r, r.Source, old(inPos(r.Source)), old(r.State)) && old(r.State)&ws.StateFragmented != 0 && hdr.OpCode >= 8 ==> r.State == old(r.State) && r.opCode == old(r.opCode) && r.utf8.state == old(r.utf8.state) && r.frame == old(r.frame) && (err == nil ==> r.raw.N == 0 || inPos(r.Source) == inEnd(r.Source))
+//@   ensures  [inv]   invReader(r) && streamOK(r.Source) && r.Source == old(r.Source) && r.CheckUTF8 == old(r.CheckUTF8)
+//@   assigns *r, *r.cr, stream(r.Source)
+//@   loop 1 invariant [hdr] hdr == ws.VSpecDecode(r.Source, old(inPos(r.Source))) && err == nil
+
+func iteReader(c bool, a, b io.Reader) io.Reader {
+	if c {
+		return a
+	}
+	return b
+}
+
